@@ -60,3 +60,22 @@ Proof.
   vm_compute. split; [reflexivity|]. eexists. eexists. split; [reflexivity|].
   split; [eexists; eexists; reflexivity|reflexivity].
 Qed.
+
+(** ConcWake: the schedule of DESIGN.md Appendix E is reachable in the Level B model — a waker
+    call has swapped its node in but not linked it, the poll registers, sees Empty and returns
+    Pending: the child is armed, the task waker not yet invoked, and the call is in flight *)
+From FB Require ConcWake.
+Example level_b_pending_with_a_call_in_flight :
+  exists s, ConcWake.reachable 61 s /\ ConcWake.pp s = ConcWake.PIdle ConcWake.RPending
+            /\ ConcWake.woken s = false /\ ConcWake.armed s 0 = true /\ ConcWake.in_flight s.
+Proof.
+  eexists. split.
+  - eapply ConcWake.r_step; [eapply ConcWake.r_step; [eapply ConcWake.r_step; [eapply ConcWake.r_step;
+      [eapply ConcWake.r_step; [apply ConcWake.r_init|]|]|]|]|].
+    + apply (ConcWake.s_spawn 61 _ 0).
+    + apply (ConcWake.s_test_set_false 61 _ 0 0); reflexivity.
+    + apply (ConcWake.s_swap 61 _ 0 0); reflexivity.
+    + apply (ConcWake.p_start 61 _ ConcWake.RNone 7); reflexivity.
+    + apply (ConcWake.p_empty 61 _ 0); [reflexivity|]. right. simpl. eauto.
+  - simpl. repeat split; auto. exists 0, 0, ConcWake.WLink. split; [reflexivity|auto].
+Qed.
